@@ -155,7 +155,14 @@ class Ctx:
             v = self.heap[v.loc]
         return v
 
+    def check_write(self, loc):
+        for allowed, nloc0, what in getattr(self, "write_guards", []):
+            if loc < nloc0 and loc not in allowed:
+                raise Unsupported("engine frame check: %s modifies heap cell %d that was not havocked "
+                                  "(add it to call_modifies / havoc_extra in the contract)" % (what, loc))
+
     def store(self, ref, value):
+        self.check_write(ref.loc)
         self.heap[ref.loc] = value
         if ref.loc in self.views:
             ploc, key, kind = self.views[ref.loc]
